@@ -33,6 +33,7 @@ import (
 	"github.com/stretchr/testify/require"
 
 	authtypes "github.com/cosmos/cosmos-sdk/x/auth/types"
+	banktypes "github.com/cosmos/cosmos-sdk/x/bank/types"
 	govtypes "github.com/cosmos/cosmos-sdk/x/gov/types"
 
 	chainapp "github.com/EscanBE/evermint/v12/app"
@@ -120,7 +121,10 @@ type hist struct {
 	nativeGen *common.Address         // native ERC-20 deployed by the genesis flag
 	stakingBy string                  // "", "genesis", "msg"
 	ops       []string
-	evmOnly   bool // only Ethereum transactions that need no flush and no precompile deployer (the block right before the export)
+	evmOnly   bool // only transactions that need no flush and no precompile deployer (the block right before the export)
+	codeless  []common.Address // accounts that hold storage and no code
+	dead      []common.Address // self-destructed contracts
+	touched   []target         // addresses coins were sent to
 }
 
 func (h *hist) wallet() *itutiltypes.TestAccount { return h.c.S.WalletAccounts.Number(1 + h.r.Intn(5)) }
@@ -239,9 +243,10 @@ func (h *hist) flush() {
 func (h *hist) op() {
 	r := h.r
 	kinds := []string{"deploy_store", "deploy_store", "store_write", "store_write", "store_write", "store_write", "store_write_many", "selfdestruct", "selfdestruct", "codeless_storage", "erc20_by_msg", "erc20_by_msg",
-		"approve", "approve", "approve", "staking_by_msg", "vauth_proof", "transfer", "revert"}
+		"approve", "approve", "approve", "staking_by_msg", "vauth_proof", "transfer", "revert",
+		"bank_send", "bank_send", "bank_send", "bank_send", "evm_value", "evm_value", "evm_value", "store_write_edge", "deploy_mined"}
 	if h.evmOnly {
-		kinds = []string{"deploy_store", "store_write", "store_write", "store_write_many", "codeless_storage", "selfdestruct", "transfer"}
+		kinds = []string{"deploy_store", "store_write", "store_write", "store_write_many", "codeless_storage", "selfdestruct", "transfer", "bank_send", "bank_send", "evm_value", "store_write_edge"}
 	}
 	k := kinds[r.Intn(len(kinds))]
 	if len(h.ops) == 0 && r.Chance(80) {
@@ -278,9 +283,44 @@ func (h *hist) op() {
 		i := r.Intn(len(h.stores))
 		to := h.stores[i]
 		h.stores = append(h.stores[:i:i], h.stores[i+1:]...)
+		h.dead = append(h.dead, to)
 		h.eth(a, &to, 60000, []byte{1}, nil)
 	case "codeless_storage":
-		h.eth(a, nil, 200000, codelessInit(pairs(r, 1+r.Intn(2))), nil)
+		cl := a.ComputeContractAddress(h.nonce(a))
+		h.eth(a, nil, 200000, codelessInit(pairs(r, 1+r.Intn(2))), func(ok bool) {
+			if ok {
+				h.codeless = append(h.codeless, cl)
+			}
+		})
+	case "bank_send":
+		h.opBankSend(a)
+	case "evm_value":
+		h.opEvmValue(a)
+	case "store_write_edge":
+		if len(h.stores) == 0 {
+			return
+		}
+		to := h.stores[r.Intn(len(h.stores))]
+		n := 2 + r.Intn(5)
+		h.eth(a, &to, 100000+uint64(n)*30000, edgeData(r, n), nil)
+	case "deploy_mined":
+		// a contract at an address with a boundary byte: fund a mined key, deploy from it
+		acct, cls := h.minedDeployer()
+		h.flush()
+		fee := new(big.Int).Mul(h.price(), big.NewInt(4*500000))
+		h.cosmos(a, nil, banktypes.NewMsgSend(a.GetCosmosAddress(), acct.GetCosmosAddress(), sdk.NewCoins(sdk.NewCoin(h.c.Denom(), sdkIntFromBig(fee)))))
+		h.flush()
+		if h.c.App.AccountKeeper.GetAccount(h.c.QueryCtx(), acct.GetCosmosAddress()) == nil {
+			return
+		}
+		addr := acct.ComputeContractAddress(0)
+		h.eth(acct, nil, 400000, storeInit(pairs(r, 1+r.Intn(3)), r.Intn(3)), func(ok bool) {
+			if ok {
+				h.stores = append(h.stores, addr)
+				h.side.Count("state:contract at boundary address " + cls)
+			}
+		})
+		h.flush()
 	case "erc20_by_msg":
 		denoms := []string{"utwo", "uthree"}
 		d := denoms[r.Intn(2)]
@@ -369,6 +409,7 @@ type gdriver struct {
 	haveK bool
 	kNative, kStaking, kBech32 metaV
 	bond                       string
+	perSig                     map[string]int
 }
 
 func TestDriverGenesis(t *testing.T) {
@@ -390,6 +431,21 @@ func TestDriverGenesis(t *testing.T) {
 	d.reference()
 	for i := 0; i < n; i++ {
 		d.roundCase(i, rng.Fork(uint64(i)))
+	}
+}
+
+// hit: hx.Sidecar keeps the first 200 oracle hits only; the known findings alone produce more than that per run, so
+// at most 8 hits per signature are recorded in full (the histogram still counts every one) - a hit of a NEW signature
+// is never crowded out.
+func (d *gdriver) hit(sig, msg string, where interface{}) {
+	if d.perSig == nil {
+		d.perSig = map[string]int{}
+	}
+	d.perSig[sig]++
+	if d.perSig[sig] <= 8 {
+		d.side.Hit(sig, msg, where)
+	} else {
+		d.side.Count("oracle_hit:" + sig)
 	}
 }
 
@@ -568,63 +624,81 @@ func findMeta(s *cState, addr *big.Int) *metaV {
 }
 
 func (d *gdriver) consts() string {
-	return fmt.Sprintf("(CC %s %s (Meta %s %s) (Meta %s %s) (Meta %s %s) %s)", CqZ(bz(cpctypes.CpcStakingFixedAddress.Bytes())), CqZ(bz(cpctypes.CpcBech32FixedAddress.Bytes())),
-		CqZu(d.kNative.Type), CqZu(d.kNative.Digest), CqZu(d.kStaking.Type), CqZu(d.kStaking.Digest), CqZu(d.kBech32.Type), CqZu(d.kBech32.Digest), CqZu(id64([]byte(d.bond))))
+	return fmt.Sprintf("(CC %s %s (Meta %s %s) (Meta %s %s) (Meta %s %s) %s %s)", CqZ(bz(cpctypes.CpcStakingFixedAddress.Bytes())), CqZ(bz(cpctypes.CpcBech32FixedAddress.Bytes())),
+		CqZu(d.kNative.Type), CqZu(d.kNative.Digest), CqZu(d.kStaking.Type), CqZu(d.kStaking.Digest), CqZu(d.kBech32.Type), CqZu(d.kBech32.Digest), CqZu(id64([]byte(d.bond))),
+		CqZ(bz(cpctypes.CpcModuleAddress.Bytes())))
+}
+
+// importCase: InitChain of a fresh application on one document -> a GImport case for the model + the oracles of an
+// import on its own.  expect: "ok" (a valid document: a failure is an oracle hit), "refused" (a document the code is
+// known to refuse: nothing to report either way, the model must predict the outcome).
+func (d *gdriver) importCase(c0 *Chain, doc []byte, cp *tmproto.ConsensusParams, height int64, canonical, expect string, where map[string]interface{}, extra []common.Address) *cState {
+	t := d.t
+	g := projectGen(t, c0, doc)
+	env := envFromDoc(t, c0, doc, g, d.bond, extra)
+	app, failure := newAppFrom(c0, doc, cp, height, c0.Time)
+	imp := "None"
+	var s *cState
+	if failure != nil {
+		if expect == "ok" {
+			d.hit(sigImportFails, fmt.Sprintf("InitChain failed on a valid genesis document (%s): %v", canonical, failure), where)
+		}
+	} else {
+		ictx := app.NewUncachedContext(false, tmproto.Header{Height: height})
+		s = readState(t, app, ictx)
+		imp = "(Some " + s.coq() + ")"
+		// oracle: the flags decide which precompiles exist after InitChain, bech32 always does; the native ERC-20 sits at the
+		// CREATE address of the cpc module account at the sequence the document gives it
+		fl := [2]bool{g.Erc20Native, g.Staking}
+		nat := app.CPCKeeper.GetErc20CustomPrecompiledContractAddressByMinDenom(ictx, d.bond)
+		if (nat != nil) != fl[0] || (nat != nil && !app.CPCKeeper.HasCustomPrecompiledContract(ictx, *nat)) {
+			d.hit(sigFlag+"/deploy_erc20_native", fmt.Sprintf("flags %v: native ERC-20 precompile present = %v", fl, nat != nil), where)
+		}
+		if nat != nil && bz(nat.Bytes()).Cmp(env.nextDyn) != 0 {
+			d.hit(sigFlag+"/deploy_erc20_native-address", fmt.Sprintf("native ERC-20 precompile deployed at %s, the cpc module account's sequence gives %s", nat, common.BigToAddress(env.nextDyn)), where)
+		}
+		if app.CPCKeeper.HasCustomPrecompiledContract(ictx, cpctypes.CpcStakingFixedAddress) != fl[1] {
+			d.hit(sigFlag+"/deploy_staking_contract", fmt.Sprintf("flags %v: staking precompile present = %v", fl, !fl[1]), where)
+		}
+		if !app.CPCKeeper.HasCustomPrecompiledContract(ictx, cpctypes.CpcBech32FixedAddress) {
+			d.hit(sigFlag+"/bech32", fmt.Sprintf("flags %v: bech32 precompile missing", fl), where)
+		}
+		d.docVsState(g, s, where)
+		if !d.haveK && fl[0] && fl[1] {
+			var natZ *big.Int
+			for _, e := range s.Denoms {
+				if e.K.Uint64() == id64([]byte(d.bond)) {
+					natZ = e.V
+				}
+			}
+			require.NotNil(t, natZ, "no native ERC-20 precompile after import with DeployErc20Native")
+			d.kNative = *findMeta(s, natZ)
+			d.kStaking = *findMeta(s, bz(cpctypes.CpcStakingFixedAddress.Bytes()))
+			d.kBech32 = *findMeta(s, bz(cpctypes.CpcBech32FixedAddress.Bytes()))
+			d.haveK = true
+		}
+	}
+	require.True(t, d.haveK, "reference import (both flags) failed: %v", failure)
+	idx := d.cases.Len()
+	d.cases.Add(fmt.Sprintf("GImport %s %s %s %s", d.consts(), env.coq(), g.coq(), imp))
+	d.side.Case(idx, "GImport/"+canonical, true, where)
+	return s
 }
 
 // reference: what InitGenesis deploys for each flag (the constants of x/cpc/genesis.go), read off a real import with
-// both flags set; one GImport case per flag combination; then GImport cases over fee-market documents.
+// both flags set; one GImport case per flag combination; GImport cases over fee-market documents; GImport cases over
+// the account environment the document gives the custom modules' addresses.
 func (d *gdriver) reference() {
 	t := d.t
 	c0, state0, cp, height := d.base()
 	bond, err := c0.App.StakingKeeper.BondDenom(c0.QueryCtx())
 	require.NoError(t, err)
 	d.bond = bond
-	for _, fl := range [][2]bool{{true, true}, {true, false}, {false, true}, {false, false}} {
+	allFlags := [][2]bool{{true, true}, {true, false}, {false, true}, {false, false}}
+	for _, fl := range allFlags {
 		doc := patchGenesis(t, c0, state0, fl[0], fl[1])
-		g := projectGen(t, c0, doc)
-		env := envFor(c0, g)
-		app, failure := newAppFrom(c0, doc, cp, height, c0.Time)
-		imp := "None"
-		var s *cState
-		if failure == nil {
-			s = readState(t, app, app.NewUncachedContext(false, tmproto.Header{Height: height}))
-			imp = "(Some " + s.coq() + ")"
-		} else {
-			d.side.Hit(sigImportFails, fmt.Sprintf("InitChain failed on a default genesis with flags %v: %v", fl, failure), nil)
-		}
-		if failure == nil {
-			// oracle: the flags decide which precompiles exist after InitChain, bech32 always does
-			ictx := app.NewUncachedContext(false, tmproto.Header{Height: height})
-			nat := app.CPCKeeper.GetErc20CustomPrecompiledContractAddressByMinDenom(ictx, bond)
-			if (nat != nil) != fl[0] || (nat != nil && !app.CPCKeeper.HasCustomPrecompiledContract(ictx, *nat)) {
-				d.side.Hit(sigFlag+"/deploy_erc20_native", fmt.Sprintf("flags %v: native ERC-20 precompile present = %v", fl, nat != nil), nil)
-			}
-			if app.CPCKeeper.HasCustomPrecompiledContract(ictx, cpctypes.CpcStakingFixedAddress) != fl[1] {
-				d.side.Hit(sigFlag+"/deploy_staking_contract", fmt.Sprintf("flags %v: staking precompile present = %v", fl, !fl[1]), nil)
-			}
-			if !app.CPCKeeper.HasCustomPrecompiledContract(ictx, cpctypes.CpcBech32FixedAddress) {
-				d.side.Hit(sigFlag+"/bech32", fmt.Sprintf("flags %v: bech32 precompile missing", fl), nil)
-			}
-			d.docVsState(g, s, map[string]interface{}{"kind": "GImport", "flags": fl})
-		}
-		if fl[0] && fl[1] {
-			require.NotNil(t, s, "reference import failed")
-			var nat *big.Int
-			for _, e := range s.Denoms {
-				if e.K.Uint64() == id64([]byte(bond)) {
-					nat = e.V
-				}
-			}
-			require.NotNil(t, nat, "no native ERC-20 precompile after import with DeployErc20Native")
-			d.kNative = *findMeta(s, nat)
-			d.kStaking = *findMeta(s, bz(cpctypes.CpcStakingFixedAddress.Bytes()))
-			d.kBech32 = *findMeta(s, bz(cpctypes.CpcBech32FixedAddress.Bytes()))
-		}
-		idx := d.cases.Len()
-		d.cases.Add(fmt.Sprintf("GImport %s %s %s %s", d.consts(), env.coq(), g.coq(), imp))
+		d.importCase(c0, doc, cp, height, fmt.Sprintf("%v/%v", fl[0], fl[1]), "ok", map[string]interface{}{"kind": "GImport", "deploy_erc20_native": fl[0], "deploy_staking_contract": fl[1]}, nil)
 		d.side.Count(fmt.Sprintf("case:GImport flags=%v/%v", fl[0], fl[1]))
-		d.side.Case(idx, fmt.Sprintf("GImport/%v/%v", fl[0], fl[1]), true, map[string]interface{}{"kind": "GImport", "deploy_erc20_native": fl[0], "deploy_staking_contract": fl[1]})
 	}
 	// fee-market documents: whatever a (valid) genesis file says is what the chain starts with; a negative value is refused
 	for _, fd := range [][3]string{
@@ -634,26 +708,75 @@ func (d *gdriver) reference() {
 		{"-1", "0.000000000000000000", "refused"}, {"0", "-0.500000000000000000", "refused"},
 	} {
 		doc := patchFm(t, patchGenesis(t, c0, state0, false, true), fd[0], fd[1])
-		g := projectGen(t, c0, doc)
-		env := envFor(c0, g)
-		app, failure := newAppFrom(c0, doc, cp, height, c0.Time)
-		imp := "None"
 		where := map[string]interface{}{"kind": "GImport", "feemarket_base_fee": fd[0], "feemarket_min_gas_price": fd[1]}
-		switch {
-		case failure == nil && fd[2] == "refused":
-			d.side.Hit(sigFmInvalid, fmt.Sprintf("InitChain accepted fee-market params base_fee=%s min_gas_price=%s", fd[0], fd[1]), where)
-		case failure != nil && fd[2] == "ok":
-			d.side.Hit(sigImportFails, fmt.Sprintf("InitChain refused valid fee-market params base_fee=%s min_gas_price=%s: %v", fd[0], fd[1], failure), where)
+		s := d.importCase(c0, doc, cp, height, fmt.Sprintf("fm/%s/%s", fd[0], fd[1]), fd[2], where, nil)
+		if s != nil && fd[2] == "refused" {
+			d.hit(sigFmInvalid, fmt.Sprintf("InitChain accepted fee-market params base_fee=%s min_gas_price=%s", fd[0], fd[1]), where)
 		}
-		if failure == nil {
-			s := readState(t, app, app.NewUncachedContext(false, tmproto.Header{Height: height}))
-			imp = "(Some " + s.coq() + ")"
-			d.docVsState(g, s, where)
-		}
-		idx := d.cases.Len()
-		d.cases.Add(fmt.Sprintf("GImport %s %s %s %s", d.consts(), env.coq(), g.coq(), imp))
 		d.side.Count("case:GImport feemarket document " + fd[2])
-		d.side.Case(idx, fmt.Sprintf("GImport/fm/%s/%s", fd[0], fd[1]), true, where)
+	}
+	// the account environment: accounts of every type at the addresses the precompiles are deployed to, the cpc module
+	// account's sequence (the native ERC-20 goes to its CREATE address) and balance, a non-module account at the cpc
+	// module address (refused only when the native ERC-20 is to be deployed), x/evm genesis accounts whose address holds a
+	// base account / a vesting account / no account
+	u64 := func(v uint64) *uint64 { return &v }
+	coin := func(d string, n int64) sdk.Coins { return sdk.NewCoins(sdk.NewCoin(d, sdkmath.NewInt(n))) }
+	evmAcct := func(a common.Address) []evmtypes.GenesisAccount {
+		return []evmtypes.GenesisAccount{{Address: a.Hex(), Code: common.Bytes2Hex(storeRuntime), Storage: evmtypes.Storage{
+			evmtypes.NewState(common.BigToHash(big.NewInt(0)), common.BigToHash(big.NewInt(0))), evmtypes.NewState(common.BigToHash(Bsub(Pow2(256), 1)), common.BigToHash(big.NewInt(9)))}}}
+	}
+	caddr := common.HexToAddress("0x11111111111111111111111111111111111111ff")
+	type envCase struct {
+		name   string
+		patch  *envPatch
+		evm    []evmtypes.GenesisAccount
+		expect func(fl [2]bool) string
+	}
+	ok := func([2]bool) string { return "ok" }
+	refused := func([2]bool) string { return "refused" }
+	everywhere := func(kind string, seq uint64, coins sdk.Coins) []acctSpec {
+		return []acctSpec{{cpctypes.CpcBech32FixedAddress, kind, coins, "bech32-precompile"}, {cpctypes.CpcStakingFixedAddress, kind, coins, "staking-precompile"},
+			{nextDynAt(seq), kind, coins, "next-dynamic-precompile"}}
+	}
+	ecs := []envCase{
+		{"base-accounts-at-precompile-addresses/seq=7", &envPatch{cpcSeq: u64(7), specs: everywhere("base", 7, coin(c0.Denom(), 1000))}, nil, ok},
+		{"empty-base-accounts-at-precompile-addresses/seq=0", &envPatch{cpcSeq: u64(0), specs: everywhere("base", 0, sdk.NewCoins())}, nil, ok},
+		{"huge-seq-accounts-at-precompile-addresses/seq=2^64-1", &envPatch{cpcSeq: u64(^uint64(0)), cpcBal: coin("utwo", 5), specs: everywhere("base-huge-seq", ^uint64(0), coin("utwo", 3))}, nil, ok},
+		{"vesting-accounts-at-precompile-addresses/seq=2^63", &envPatch{cpcSeq: u64(1 << 63), specs: []acctSpec{
+			{cpctypes.CpcBech32FixedAddress, "continuous-vesting", coin(c0.Denom(), 50), "bech32-precompile"}, {cpctypes.CpcStakingFixedAddress, "permanent-locked", coin(c0.Denom(), 50), "staking-precompile"},
+			{nextDynAt(1 << 63), "delayed-vesting", coin("uthree", 2), "next-dynamic-precompile"}, {nextDynAt(1<<63 + 1), "periodic-vesting", coin(c0.Denom(), 1), "next-dynamic-precompile+1"}}}, nil, ok},
+		{"cpc-module-account-with-balance/seq=1", &envPatch{cpcSeq: u64(1), cpcBal: coin(c0.Denom(), 12345)}, nil, ok},
+		{"base-account-at-cpc-module-address", &envPatch{cpcAs: "base", cpcSeq: u64(3), cpcBal: coin(c0.Denom(), 1)}, nil, func(fl [2]bool) string {
+			if fl[0] {
+				return "refused" // GetModuleAccount: "account is not a module account"
+			}
+			return "ok"
+		}},
+		{"evm-account-over-base-account", &envPatch{specs: []acctSpec{{caddr, "base", coin("utwo", 4), "contract"}}}, evmAcct(caddr), ok},
+		{"evm-account-over-huge-seq-account", &envPatch{specs: []acctSpec{{caddr, "base-huge-seq", sdk.NewCoins(), "contract"}}}, evmAcct(caddr), ok},
+		{"evm-account-over-vesting-account", &envPatch{specs: []acctSpec{{caddr, "continuous-vested", coin(c0.Denom(), 4), "contract"}}}, evmAcct(caddr), refused},
+		{"evm-account-without-auth-account", nil, evmAcct(caddr), refused},
+		{"evm-account-at-bech32-precompile-address", &envPatch{specs: []acctSpec{{cpctypes.CpcBech32FixedAddress, "base", coin(c0.Denom(), 4), "bech32-precompile"}}}, evmAcct(cpctypes.CpcBech32FixedAddress), ok},
+	}
+	if os.Getenv("VERIF_C18_NO_ENVDOC") != "" { // diagnostic: the environment varied by histories only
+		ecs = nil
+	}
+	for _, ec := range ecs {
+		for _, fl := range allFlags {
+			doc := patchAccounts(t, c0, patchGenesis(t, c0, state0, fl[0], fl[1]), ec.patch)
+			if ec.evm != nil {
+				doc = patchEvmAccounts(t, c0, doc, ec.evm)
+			}
+			var extra []common.Address
+			if ec.patch != nil {
+				for _, sp := range ec.patch.specs {
+					extra = append(extra, sp.Addr)
+				}
+			}
+			where := map[string]interface{}{"kind": "GImport", "environment": ec.name, "accounts": ec.patch.String(), "deploy_erc20_native": fl[0], "deploy_staking_contract": fl[1]}
+			d.importCase(c0, doc, cp, height, fmt.Sprintf("env/%s/%v/%v", ec.name, fl[0], fl[1]), ec.expect(fl), where, extra)
+			d.side.Count("case:GImport environment " + ec.name + " -> " + ec.expect(fl))
+		}
 	}
 }
 
@@ -662,11 +785,11 @@ func (d *gdriver) docVsState(g *genV, s *cState, where interface{}) {
 	for _, m := range []string{"evm", "feemarket", "cpc"} {
 		if df := diffLeaves(g.leaves[m], s.leaves[m]); len(df) > 0 {
 			sig := map[string]string{"evm": sigEvmParams, "feemarket": sigFmDoc, "cpc": sigCpcParams}[m]
-			d.side.Hit(sig, fmt.Sprintf("%s params after InitChain differ from the genesis document: %s", m, strings.Join(df, "; ")), where)
+			d.hit(sig, fmt.Sprintf("%s params after InitChain differ from the genesis document: %s", m, strings.Join(df, "; ")), where)
 		}
 	}
 	if s.EvmBase.Cmp(s.BaseFee) != 0 {
-		d.side.Hit(sigFm, fmt.Sprintf("x/evm reads base fee %s, the fee market holds %s", s.EvmBase, s.BaseFee), where)
+		d.hit(sigFm, fmt.Sprintf("x/evm reads base fee %s, the fee market holds %s", s.EvmBase, s.BaseFee), where)
 	}
 }
 
@@ -680,10 +803,11 @@ type roundCfg struct {
 	bCons                  string // consensus params of chain B: "export", "unlimited-gas", "small-blocks"
 	bChain                 string // chain id of chain B: "same", "other"
 	export                 string // "at-height" (ExportAppStateAndValidators(false)), "zero-height" (forZeroHeight = true: the document a chain is restarted from at height 0)
+	envDoc                 string // accounts written into the auth / bank sections chain A starts from
 }
 
 func (c roundCfg) String() string {
-	return fmt.Sprintf("%v/%v/A@%s/%s+%d/early=%v/%s/B@%s/%s/%s", c.erc20Flag, c.stakingFlag, c.aHeight, c.timing, c.blocksAfter, c.early, c.export, c.bHeight, c.bCons, c.bChain)
+	return fmt.Sprintf("%v/%v/A@%s/%s+%d/early=%v/%s/B@%s/%s/%s/env:%s", c.erc20Flag, c.stakingFlag, c.aHeight, c.timing, c.blocksAfter, c.early, c.export, c.bHeight, c.bCons, c.bChain, c.envDoc)
 }
 
 func pick(r *Rng, xs ...string) string { return xs[r.Intn(len(xs))] }
@@ -708,11 +832,21 @@ func (d *gdriver) roundCase(ci int, r *Rng) {
 		d.side.Count("config:genesis-document:feemarket min_gas_price=" + fp.mgpCls + " base_fee=" + fp.bfCls)
 		cfg.blocksAfter, cfg.early = 0, false
 	}
+	// the account environment the genesis document gives the custom modules' addresses
+	var ep *envPatch
+	if r.Chance(50) && os.Getenv("VERIF_C18_NO_ENVDOC") == "" {
+		ep = genEnvPatch(c0, r, d.side)
+		doc = patchAccounts(t, c0, doc, ep)
+	} else {
+		d.side.Count("envdoc:none")
+	}
+	cfg.envDoc = ep.String()
 	hA := map[string]int64{"suite": height, "1": 1, "high": 1000000007}[cfg.aHeight]
 	appA, failure := newAppFrom(c0, doc, cp, hA, c0.Time)
 	if failure != nil {
-		// chain A itself starts from a valid genesis document (flags, params within what Validate accepts)
-		d.side.Hit(sigImportFails, fmt.Sprintf("InitChain of chain A failed on a valid genesis document: %v", failure), where0(ci, d.seed, cfg, nil))
+		// chain A itself starts from a valid genesis document (flags, params within what Validate accepts, accounts of
+		// valid types at whatever address)
+		d.hit(sigImportFails, fmt.Sprintf("InitChain of chain A failed on a valid genesis document: %v", failure), where0(ci, d.seed, cfg, nil))
 		return
 	}
 	a := chainOn(t, c0, appA)
@@ -790,7 +924,7 @@ func (d *gdriver) roundCase(ci int, r *Rng) {
 	require.NoError(t, err)
 	g1 := projectGen(t, a, exp1.AppState)
 	if exp1.Height != appA.LastBlockHeight()+1 {
-		d.side.Hit(sigHeight, fmt.Sprintf("export height %d, last block %d", exp1.Height, appA.LastBlockHeight()), where)
+		d.hit(sigHeight, fmt.Sprintf("export height %d, last block %d", exp1.Height, appA.LastBlockHeight()), where)
 	}
 	if cfg.export == "zero-height" {
 		// the zero-height export rewrites staking / distribution; the custom modules' sections are the same document
@@ -803,11 +937,11 @@ func (d *gdriver) roundCase(ci int, r *Rng) {
 			g0 := projectGen(t, a, exp0.AppState)
 			for _, m := range []string{"evm", "feemarket", "cpc", "vauth"} {
 				if g1.canon[m] != g0.canon[m] {
-					d.side.Hit(sigZeroHeight+"/"+m, "the zero-height export differs from the export at height in module "+m, where)
+					d.hit(sigZeroHeight+"/"+m, "the zero-height export differs from the export at height in module "+m, where)
 				}
 			}
 			if exp0.Height != 0 {
-				d.side.Hit(sigHeight, fmt.Sprintf("zero-height export says height %d", exp0.Height), where)
+				d.hit(sigHeight, fmt.Sprintf("zero-height export says height %d", exp0.Height), where)
 			}
 			exp0.Height = 1 // the chain restarts at its first height
 			exp1, g1 = exp0, g0
@@ -816,33 +950,45 @@ func (d *gdriver) roundCase(ci int, r *Rng) {
 	d.side.Count("export:" + cfg.export)
 	{ // the export reads, it does not write; exporting again gives the same document
 		if sA2 := readState(t, appA, a.QueryCtx()); sA2.coq() != sA.coq() {
-			d.side.Hit(sigExportWrites, "the custom modules' stores differ after ExportAppStateAndValidators", where)
+			d.hit(sigExportWrites, "the custom modules' stores differ after ExportAppStateAndValidators", where)
 		}
 		exp1b, err := appA.ExportAppStateAndValidators(cfg.export == "zero-height", nil, nil)
 		require.NoError(t, err)
 		g1b := projectGen(t, a, exp1b.AppState)
 		for _, m := range []string{"evm", "feemarket", "cpc", "vauth"} {
 			if g1.canon[m] != g1b.canon[m] {
-				d.side.Hit(sigNondet+"/"+m, "two exports of the same state differ in module "+m, where)
+				d.hit(sigNondet+"/"+m, "two exports of the same state differ in module "+m, where)
 			}
 		}
 	}
 	// the exported params are the params of the state, field by field
 	for _, m := range []string{"evm", "feemarket", "cpc"} {
 		if df := diffLeaves(sA.leaves[m], g1.leaves[m]); len(df) > 0 {
-			d.side.Hit(sigExportState+"/"+m+"-params", "exported "+m+" params differ from the state: "+strings.Join(df, "; "), where)
+			d.hit(sigExportState+"/"+m+"-params", "exported "+m+" params differ from the state: "+strings.Join(df, "; "), where)
 		}
 	}
 	d.fmHistogram(sA)
-	env := envFor(a, g1)
+	interest := interestAddrs(h, sA, ep)
+	var extra []common.Address
+	for _, tg := range interest {
+		extra = append(extra, tg.Addr)
+	}
+	env := envFromDoc(t, a, exp1.AppState, g1, d.bond, extra)
+	for _, ak := range env.accts {
+		d.side.Count("env:imported document holds " + ak.Kind + " at an address of interest")
+	}
+	viewsA := map[common.Address]acctView{}
+	for _, tg := range interest {
+		viewsA[tg.Addr] = viewAccount(appA, a.QueryCtx(), tg.Addr)
+	}
 	for id, code := range sA.codes {
 		env.hashes[id] = code
 	}
 	for m, e := range g1.invalid {
-		d.side.Hit(sigInvalid+"/"+m, "the exported "+m+" genesis does not pass the module's own validation: "+e, where)
+		d.hit(sigInvalid+"/"+m, "the exported "+m+" genesis does not pass the module's own validation: "+e, where)
 	}
 	for _, u := range sA.Unknown {
-		d.side.Hit(sigUnknown, "chain A: "+u, where)
+		d.hit(sigUnknown, "chain A: "+u, where)
 	}
 	cp1 := exp1.ConsensusParams
 	switch cfg.bCons {
@@ -861,17 +1007,30 @@ func (d *gdriver) roundCase(ci int, r *Rng) {
 	appB, failure := newAppWith(a, exp1.AppState, &cp1, hB, a.Time, chainB)
 	imp, g2t := "None", "None"
 	if failure != nil {
-		d.side.Hit(sigImportFails, fmt.Sprintf("InitChain on the exported state failed: %v", failure), where)
+		d.hit(sigImportFails, fmt.Sprintf("InitChain on the exported state failed: %v", failure), where)
 	} else {
 		sB := readState(t, appB, appB.NewUncachedContext(false, tmproto.Header{Height: hB}))
 		imp = "(Some " + sB.coq() + ")"
 		d.compare(h, sA, sB, where)
 		d.docVsState(g1, sB, where)
+		// the accounts and balances at the custom modules' addresses are what they were
+		bctx := appB.NewUncachedContext(false, tmproto.Header{Height: hB})
+		for _, tg := range interest {
+			va, vb := viewsA[tg.Addr], viewAccount(appB, bctx, tg.Addr)
+			cls := strings.SplitN(tg.Class, "(", 2)[0]
+			d.side.Count("env:compared account at " + cls)
+			if va.auth != vb.auth {
+				d.hit(sigEnvAuth, fmt.Sprintf("account at %s (%s): %s -> %s", tg.Addr, tg.Class, va.auth, vb.auth), where)
+			}
+			if va.bank != vb.bank {
+				d.hit(sigEnvBank, fmt.Sprintf("balances at %s (%s): %s -> %s", tg.Addr, tg.Class, va.bank, vb.bank), where)
+			}
+		}
 		if sB.ChainID != wantChainID {
-			d.side.Hit(sigChainID, fmt.Sprintf("x/evm of chain B holds EIP-155 chain id %d, its chain id says %d", sB.ChainID, wantChainID), where)
+			d.hit(sigChainID, fmt.Sprintf("x/evm of chain B holds EIP-155 chain id %d, its chain id says %d", sB.ChainID, wantChainID), where)
 		}
 		for _, u := range sB.Unknown {
-			d.side.Hit(sigUnknown, "chain B: "+u, where)
+			d.hit(sigUnknown, "chain B: "+u, where)
 		}
 		exp2, err := appB.ExportAppStateAndValidators(false, nil, nil)
 		require.NoError(t, err)
@@ -883,7 +1042,7 @@ func (d *gdriver) roundCase(ci int, r *Rng) {
 				if df := diffLeaves(g1.leaves[m], g2.leaves[m]); len(df) > 0 {
 					msg += " (params: " + strings.Join(df, "; ") + ")"
 				}
-				d.side.Hit(sigSecondExport+"/"+m, msg, where)
+				d.hit(sigSecondExport+"/"+m, msg, where)
 			}
 		}
 	}
@@ -948,7 +1107,7 @@ func min(a, b int) int {
 // resp. the staking metadata equals the genesis default); any other deviation - an entry that survives changed, a
 // further entry lost, an entry B has and A has not - is reported under a signature that is not known.
 func (d *gdriver) compare(h *hist, a, b *cState, where map[string]interface{}) {
-	hit := func(sig, msg string) { d.side.Hit(sig, msg, where) }
+	hit := func(sig, msg string) { d.hit(sig, msg, where) }
 	idx := func(l []zz) map[string]*big.Int {
 		m := map[string]*big.Int{}
 		for _, e := range l {
